@@ -14,7 +14,7 @@ LEVEL = "fault_enumeration"
 VARIANTS = ["asan"]
 RULE = ("per front end: all strings of length <= n over the branch-character alphabet (n=3 quick, 4..5 thorough), all prefixes and "
         "suffix-truncations of the corpus (tests/*.sqf, tests/config.cpp, generated samples), all single-token mutations "
-        "(delete / duplicate / replace by each token kind), directive graphs over <=3 macros, nesting ladders; a case = one input "
+        "(delete / duplicate / replace by each token kind), directive graphs over <=3 macros, nesting ladders, include graphs over 2 (quick) / 3 (thorough) real files; a case = one input "
         "text for one front end; non-trivial = non-empty text; distinct by (front end, text)")
 ASSUMPTIONS = [
     "time proportional to input: watchdog of 3 s + 30 ms per batch item + 10 ms per KiB (generous constant); nesting ladders stop at depth "
@@ -239,6 +239,97 @@ def check(ws, case):
     return v1 + v2, info
 
 
+# ---------------------------------------------------------------- include graphs over real files
+from .. import build as B
+INC_SCR = os.path.join(B.BUILD, "scratch", "c10")
+WRAPS = {
+    "plain": "%s\n",
+    "ifndef-never": "#ifndef NEVER\n%s\n#endif\n",
+    "ifdef-on": "#ifdef ON\n%s\n#endif\n",
+    "guarded": "#ifndef G_@\n#define G_@\n%s\n#endif\n",
+    "else-branch": "#ifdef NEVER\nno_@\n#else\n%s\n#endif\n",
+    "disabled": "#ifdef NEVER\n%s\n#endif\n",
+}
+INC_TARGETS = [None, "a", "b", "c"]
+
+
+def inc_file(name, wrap, target):
+    inc = WRAPS[wrap].replace("@", name) % ('#include "/%s.hpp"' % target) if target else ""
+    return "pre_%s\n%spost_%s\n" % (name, inc, name)
+
+
+def gen_include_graphs(three):
+    """main.sqf includes a.hpp (and then b.hpp); a/b(/c) each hold at most one #include of a/b/c in one of 6 conditional wrappings."""
+    def g():
+        slots = [(w, t) for w in WRAPS for t in INC_TARGETS[1:] if three or t != "c"] + [("plain", None)]
+        for mains in (["a"], ["a", "b"]):
+            for sa in slots:
+                for sb in slots:
+                    for sc in (slots if three else [("plain", None)]):
+                        yield [mains, list(sa), list(sb), list(sc)]
+    return g
+
+
+def include_reference(mains, spec):
+    """-> (cyclic, marker sequence). A file named while it is still open is a cycle whatever guards it carries."""
+    defined = {"ON"}
+    out = []
+    class Cycle(Exception):
+        pass
+    def enter(name, stack):
+        if name in stack:
+            raise Cycle()
+        wrap, target = spec[name]
+        out.append("pre_" + name)
+        if target:
+            live = {"plain": True, "ifndef-never": True, "ifdef-on": True, "else-branch": True, "disabled": False,
+                    "guarded": ("G_" + name) not in defined}[wrap]
+            if wrap == "guarded" and live:
+                defined.add("G_" + name)
+            if live:
+                enter(target, stack + [name])
+        out.append("post_" + name)
+    try:
+        for m in mains:
+            enter(m, [])
+    except Cycle:
+        return True, out
+    return False, out
+
+
+def check_include_graph(ws, case):
+    mains, sa, sb, sc = case
+    spec = {"a": tuple(sa), "b": tuple(sb), "c": tuple(sc)}
+    d = os.path.join(INC_SCR, "w%d" % os.getpid())
+    os.makedirs(d, exist_ok=True)
+    for n, (w, t) in spec.items():
+        with open(os.path.join(d, n + ".hpp"), "w") as f:
+            f.write(inc_file(n, w, t))
+    text = "#define ON\n" + "".join('#include "/%s.hpp"\n' % m for m in mains) + "end_main\n"
+    cyc, marks = include_reference(mains, spec)
+    info = {"n": 1, "nontrivial": 1 if any(t for _, t in spec.values()) else 0}
+    tag = "cyclic" if cyc else "acyclic"
+    shape = "+".join(sorted({w for w, t in spec.values() if t}))
+    r = ws.call({"mode": "pp", "fork": True, "timeout_ms": 8000, "cases": [{"text": text, "maps": [[d, "/"]], "path": "/main.sqf", "phys": os.path.join(d, "main.sqf")}]}, variant="asan")
+    if r["outcome"] != "ok":
+        kind = r.get("kind", r["outcome"]) if r["outcome"] == "crash" else r["outcome"]
+        from .c09 import kind_class
+        return [("C10|pp|include-graph|%s|%s|%s" % (tag, kind_class(kind), shape), "include graph main->%s a=%s b=%s c=%s: %s in %s" % (mains, sa, sb, sc, kind, r.get("frame", "")[:120]), None, case)], info
+    it = r["result"]["items"][0]
+    nerr = sum(1 for m in it["log"] if m["lvl"] <= 1)
+    if cyc:
+        if it["ok"] or nerr == 0:
+            return [("C10|pp|include-graph|cycle-not-reported|%s" % shape, "include graph main->%s a=%s b=%s c=%s is cyclic: ok=%s, %d error diagnostics" % (mains, sa, sb, sc, it["ok"], nerr), None, case)], info
+        return [], info
+    if not it["ok"]:
+        return [("C10|pp|include-graph|acyclic-rejected|%s" % shape, "include graph main->%s a=%s b=%s c=%s has no cycle but preprocessing failed: %s" % (
+            mains, sa, sb, sc, [m["msg"][:80] for m in it["log"]][:1]), None, case)], info
+    got = re.findall(r"\b(?:pre|post)_[abc]\b|\bno_[abc]\b", it.get("out", ""))
+    if got != marks:
+        return [("C10|pp|include-graph|wrong-expansion|%s" % shape, "include graph main->%s a=%s b=%s c=%s: file bodies appear as %r, expected %r" % (mains, sa, sb, sc, got, marks), None, case)], info
+    return [], info
+
+
 def spaces(tier):
     q = tier == "quick"
     ml = {"sqf": 3, "config": 3, "pp": 3, "compile": 2, "preprocess__": 2, "configparse__": 2} if q else \
@@ -250,4 +341,6 @@ def spaces(tier):
         Space("directive-graphs", gen_directives(), check, variant="asan", describe="#define graphs over 3 object-like and 2 function-like macros incl. self/mutual recursion; stray directives"),
         Space("line-directives", gen_line_directives(), check, variant="asan", describe="#line directives in the parsers' tokenizers: number forms x file parts x LF / CRLF / CR / none x position"),
         Space("nesting-ladders", gen_ladders([1, 10, 100, 300]), check, variant="asan", describe="nesting depth ladders for ( [ { class, unary chains, long strings"),
+        Space("include-graphs", gen_include_graphs(not q), check_include_graph, variant="asan",
+              describe="include graphs over real files: main includes a (and b); a, b%s each hold <=1 #include of one another or themselves in 6 conditional wrappings; cycles must be reported, acyclic graphs expand in order" % ("" if q else ", c")),
     ]
